@@ -408,6 +408,18 @@ func (e *Enc) modTargets(m Expr, env *Env) ([]modTarget, error) {
 			}
 			return out, nil
 		}
+		if x.Fun == "built" && len(x.Args) == 1 {
+			if g := e.w.cs.Ghosts["out"]; g != nil {
+				a, err := e.evalExpr(x.Args[0], env)
+				if err != nil {
+					return nil, err
+				}
+				if a.T == nil {
+					return nil, fmt.Errorf("built() needs a typed pointer")
+				}
+				return []modTarget{{e.ghostKey(g), e.box(a, a.T)}}, nil
+			}
+		}
 		if g := e.w.cs.Ghosts[x.Fun]; g != nil {
 			k := e.ghostKey(g)
 			if len(x.Args) == 0 {
@@ -553,9 +565,7 @@ func (e *Enc) allowedByFrame(t modTarget) string {
 	if t.idx != "" && !strings.HasPrefix(t.key, "G|") {
 		ds = append(ds, fmt.Sprintf("(> %s %s)", t.idx, alloc0))
 	}
-	if t.idx != "" && t.key == "G|built" {
-		ds = append(ds, fmt.Sprintf("(> %s %s)", t.idx, alloc0))
-	}
+
 	if t.idx != "" && strings.HasPrefix(t.key, "G|") && strings.HasPrefix(e.compKeySort(t.key), "(Array Val ") {
 		// ghost state of an object allocated during this call (e.g. a private buffer used as io.Writer)
 		ds = append(ds, fmt.Sprintf("(and ((_ is VRef) %s) (> (vid %s) %s))", t.idx, t.idx, alloc0))
